@@ -22,15 +22,15 @@ fn hook_engine() -> Engine {
                 Scenario { name: "tick", weight: 4, run: c36::run_tick },
                 Scenario { name: "observation", weight: 2, run: c36::run_observation },
                 Scenario { name: "inline", weight: 1, run: c36::run_inline },
-                // replay-only unless VERIF_E5_INCLUDE_FINDINGS is set (FINDINGS.md #1)
-                Scenario { name: "passthrough_tick", weight: if std::env::var("VERIF_E5_INCLUDE_FINDINGS").is_ok() { 1 } else { 0 }, run: c36::run_passthrough_tick },
+                // batch hook + PassthroughSingletonHook in one tick (exposed finding #1, findings/NOTES.txt)
+                Scenario { name: "passthrough_tick", weight: 1, run: c36::run_passthrough_tick },
             ],
             quick_runs: 1_500_000,
             thorough_runs: 150_000_000,
             rule: "hook level: each run draws knobs (1-3 batch hooks of seeded kinds forming one tick, or one top-level hook forming an observation, or one in-tick ordering hook; 1-3 keys; <=6 uniquely numbered items per hook; arrivals per step; logging on/off) and then alternates seeded arrivals with scheduled ticks whose every release decision is answered by the recorded decision stream. Distinct = distinct hash of the realised decision trace; non-trivial = at least one item/snapshot was released AND at least one decision with more than one legal answer was answered with a non-first choice.",
             time_unit: "scheduled ticks/observations",
             real: &[
-                "hydro_lang::sim::runtime::{StreamHook<TotalOrder|NoOrder>, KeyedStreamHook<TotalOrder|NoOrder>, SingletonHook, KeyedSingletonHook, TopLevelStreamOrderHook, TopLevelKeyedStreamOrderHook, TopLevelPartiallyOrderedStreamHook, TopLevelFoldHook, TopLevelMergeOrderedHook, TopLevelKeyedMergeOrderedHook, StreamOrderHook, MergeOrderedHook, KeyedStreamOrderHook, PartiallyOrderedStreamHook, KeyedMergeOrderedHook}: autonomous_decision, release_decision, current_decision, can_make_nontrivial_decision, is_ready",
+                "hydro_lang::sim::runtime::{StreamHook<TotalOrder|NoOrder>, KeyedStreamHook<TotalOrder|NoOrder>, SingletonHook, PassthroughSingletonHook, KeyedSingletonHook, TopLevelStreamOrderHook, TopLevelKeyedStreamOrderHook, TopLevelPartiallyOrderedStreamHook, TopLevelFoldHook, TopLevelMergeOrderedHook, TopLevelKeyedMergeOrderedHook, StreamOrderHook, MergeOrderedHook, KeyedStreamOrderHook, PartiallyOrderedStreamHook, KeyedMergeOrderedHook}: autonomous_decision, release_decision, current_decision, can_make_nontrivial_decision, is_ready",
                 "dfir_rs::util::unsync::mpsc (hook output channels)",
             ],
             stubs: &[
